@@ -465,7 +465,8 @@ theorem translated_methods :
      "Mailbox.add_message", "Mailbox.close",
      "AppNamespace._summarize_nameplate_and_store", "AppNamespace._summarize_mailbox_and_store", "AppNamespace._add_mailbox",
      "AppNamespace.open_mailbox", "AppNamespace.claim_nameplate", "AppNamespace.release_nameplate",
-     "AppNamespace.allocate_nameplate", "AppNamespace.log_client_version", "Server.dump_stats", "Server.get_all_apps", "Server.prune_all_apps"].all
+     "AppNamespace.allocate_nameplate", "AppNamespace.log_client_version", "Server.dump_stats", "Server.get_all_apps", "Server.prune_all_apps",
+     "AppNamespace._get_nameplate_ids", "AppNamespace.get_nameplate_ids"].all
       (fun n => (GenSrv.table.lookup n).isSome) = true := by decide
 
 /-- what the translated bodies call: translated methods, the two summary functions (translate_summ.py, Tie/SrvSumm.lean), the two primitives of Tie/SrvTop.lean, or `AppNamespace.prune` (Tie/SrvSweep.lean) -/
